@@ -537,9 +537,13 @@ HReply(k, n) ==
             /\ Write(k, (IF r.unch THEN <<F("Unchoke")>> ELSE <<>>)
                         \o <<F(IF r.amInt THEN "Interested" ELSE "NotInterested")>>)
             /\ UNCHANGED <<mq, bq>>
-       [] r.t = "PrepareKill" ->                       \* "end job normally"
+       [] r.t = "PrepareKill" /\ hk.trig.t # "BroadHave" ->      \* "end job normally"
             /\ h' = [h EXCEPT ![k] = DeadH]
             /\ Enq(k, "Kill", None) /\ Quiet /\ UNCHANGED bq
+       [] r.t = "PrepareKill" /\ hk.trig.t = "BroadHave" ->
+            \* (as coded: on the broadcast path the result of the PieceCancel call is not looked at, so the
+            \*  task stays; no property asks for the connection to be dropped)
+            tailHave(<<>>, hk) /\ UNCHANGED <<mq, bq>>
        [] r.t = "Load" ->
             \* the piece is read from the store; then the request is validated and answered
             IF r.p \notin stored
